@@ -13,10 +13,14 @@ CONSTANTS N,            \* number of non-genesis blocks
           MaxCrash,     \* crashes per behaviour
           Gaps          \* BOOLEAN: heights may skip
 
-VARIABLES tree, st, nDel, nCrash, startHead, heads, crashed, viaFork
-vars == <<tree, st, nDel, nCrash, startHead, heads, crashed, viaFork>>
+VARIABLES tree, st, nDel, nCrash, startHead, heads, crashed, viaFork, rd, nRead
+vars == <<tree, st, nDel, nCrash, startHead, heads, crashed, viaFork, rd, nRead>>
 
 CONSTANT Forks       \* BOOLEAN: also explore fork switches of the sync processor
+CONSTANTS Readers,   \* how many lock-free height lookups (rpc layer, sync helper, ...) run alongside; 0 = none
+          ReadFill   \* BOOLEAN, FALSE = as coded: a lookup that went to the store returns what it read;
+                     \* TRUE = a read-through variant that also puts it into the cache (negative control)
+Idle == [pc |-> "idle", h |-> 0, val |-> None]
 
 TxUniverse == {1, 2}
 
@@ -25,6 +29,7 @@ Trees == TreesUpTo(N, Gaps)
 Init == /\ tree \in Trees
         /\ st = InitState(tree)
         /\ nDel = 0 /\ nCrash = 0 /\ startHead = 0 /\ heads = <<0>> /\ crashed = FALSE /\ viaFork = FALSE
+        /\ rd = Idle /\ nRead = 0
 
 DeliverAct(b) ==
   /\ st.todo = <<>> /\ nDel < MaxDeliver
@@ -34,7 +39,7 @@ DeliverAct(b) ==
   /\ startHead' = st.latest
   /\ nDel' = nDel + 1
   /\ crashed' = FALSE /\ viaFork' = FALSE
-  /\ UNCHANGED <<tree, nCrash>>
+  /\ UNCHANGED <<tree, nCrash, rd, nRead>>
 
 (* the sync processor switches to the fork a -> ... -> x (a on the local chain) *)
 ForkAct(a, x) ==
@@ -46,22 +51,41 @@ ForkAct(a, x) ==
   /\ startHead' = st.latest
   /\ nDel' = nDel + 1
   /\ crashed' = FALSE /\ viaFork' = TRUE
-  /\ UNCHANGED <<tree, nCrash>>
+  /\ UNCHANGED <<tree, nCrash, rd, nRead>>
 
 StepAct == /\ st.todo # <<>>
            /\ st' = Step(tree, st)
-           /\ UNCHANGED <<tree, nDel, nCrash, startHead, heads, crashed, viaFork>>
+           /\ UNCHANGED <<tree, nDel, nCrash, startHead, heads, crashed, viaFork, rd, nRead>>
 
 CrashAct == /\ st.todo # <<>> /\ nCrash < MaxCrash
             /\ st' = CrashState(st)
             /\ nCrash' = nCrash + 1
             /\ crashed' = TRUE
-            /\ UNCHANGED <<tree, nDel, startHead, heads, viaFork>>
+            /\ UNCHANGED <<tree, nDel, startHead, heads, viaFork, rd, nRead>>
 
-Next == (\E b \in 1..N : DeliverAct(b)) \/ (\E a \in 0..N, x \in 1..N : ForkAct(a, x)) \/ StepAct \/ CrashAct
+(* A clean stop and restart at a quiescent point (the height cache is rebuilt without the head). *)
+RestartAct == /\ Readers > 0 /\ st.todo = <<>> /\ rd.pc = "idle" /\ nCrash < MaxCrash
+              /\ st' = CrashState(st)
+              /\ nCrash' = nCrash + 1
+              /\ UNCHANGED <<tree, nDel, startHead, heads, crashed, viaFork, rd, nRead>>
+
+(* QueryBlockHeaderByHeight(h, true) without the chain lock, in two steps: cache miss + store read,
+   then the return (a cache hit is one atomic step that changes nothing and is not modelled). *)
+RdStart(h) == /\ nRead < Readers /\ rd.pc = "idle" /\ st.cache[h] = Miss
+              /\ rd' = [pc |-> "read", h |-> h, val |-> st.hidx[h]]
+              /\ nRead' = nRead + 1
+              /\ UNCHANGED <<tree, st, nDel, nCrash, startHead, heads, crashed, viaFork>>
+RdEnd == /\ rd.pc = "read"
+         /\ rd' = Idle
+         /\ st' = IF ReadFill /\ rd.val # None THEN [st EXCEPT !.cache[rd.h] = rd.val] ELSE st
+         /\ UNCHANGED <<tree, nDel, nCrash, startHead, heads, crashed, viaFork, nRead>>
+
+Next == \/ (\E b \in 1..N : DeliverAct(b)) \/ (\E a \in 0..N, x \in 1..N : ForkAct(a, x)) \/ StepAct \/ CrashAct
+        \/ RestartAct \/ (\E h \in DOMAIN st.hidx : RdStart(h)) \/ RdEnd
 Spec == Init /\ [][Next]_vars
 
-Quiescent == st.todo = <<>>
+Quiescent == st.todo = <<>> /\ rd.pc = "idle"
+InvCache          == Quiescent => (CacheCoherent(tree, st) /\ LookupsReturnChain(tree, st))
 InvStore          == Quiescent => StoreOK(tree, st)
 InvHeadLinked     == Quiescent => HeadLinked(tree, st)
 InvIndex          == Quiescent => (HeightIndexAgrees(tree, st) /\ NothingAboveHead(tree, st))
